@@ -4,6 +4,7 @@ P: ratio_sub_one (nested helper of DisaggregatedResult.ratio): r -> min(r, 1/r) 
    r < 0 is taken from the property text ('the smallest of min(r, 1/r)') and is refuted by z3 with r = -1/2, replayed natively: this is the
    known finding C02:ratio:negative-values.  Aggregate lemmas (max-min, 2x, sandwich) in vf/deductive/C02_lemmas.py when present.
 """
+from ..contracts import mf_cache
 from ..contracts.aggregates import ApplyGrouping, Difference, Ratio
 from ..contracts.small import RatioSubOne
 from ..pyvc import verify
@@ -44,6 +45,8 @@ def run_deductive(rep):
         items.append((Ratio("between_groups", e, cf=True), []))
     rep.trust("pandas agg/min/max on non-NaN columns are the extrema; frame.apply / Series.apply / transform are column-wise / element-wise (assumed); one generic metric column, "
               "no control features, scalar non-NaN cells (the rest: bounded stand-in)")
+    # the MetricFrame side: the result cache between the public aggregates and DisaggregatedResult (writer, helper, readers, documented defaults)
+    items.extend(mf_cache.items(verify))
     verify.verify_many(rep, items)
     try:
         from . import C02_lemmas
